@@ -1,0 +1,34 @@
+//go:build verif
+
+// Verification hook (build tag "verif"): the three schema generators for a run-time reflect.Type.
+// The public entry point is generic over compile-time types only; this is its body with the type
+// passed as a value. Nothing here is compiled into a normal build.
+
+package schema
+
+import (
+	"reflect"
+
+	"github.com/getkin/kin-openapi/openapi3"
+)
+
+// VerifConvertType is ConvertStructToOpenAPISchemaWithOptions for a reflect.Type.
+func VerifConvertType(t reflect.Type, options ConverterOptions) *openapi3.Schema {
+	switch options.RefStyle {
+	case RefStyleDefs:
+		gen := NewGenerator(options)
+		schema := gen.generateWithRefs(t)
+		if len(gen.defs) > 0 {
+			if schema.Extensions == nil {
+				schema.Extensions = make(map[string]interface{})
+			}
+			schema.Extensions["$defs"] = gen.defs
+		}
+		return schema
+	case RefStyleNested:
+		return convertWithNestedRefs(t)
+	default:
+		visited := make(map[reflect.Type]*openapi3.Schema)
+		return convertReflectTypeToSchemaWithVisited(t, visited)
+	}
+}
